@@ -414,4 +414,9 @@ theorem C08_pow (c : Ctx) (x y : Dec) (e : Expect)
     unfold powSpecials <;> c08_fin h
 
 
+/-- `Context.Pow` decides every case of its special-value prologue as the prologue does -/
+theorem powIntOp_of_specials {c : Ctx} {x y : Dec} {o : Out} (h : powSpecials c x y = some o) :
+    powIntOp c x y = some o := by
+  simp [powIntOp, h]
+
 end Apd.C08L
